@@ -65,10 +65,13 @@ type RunSpec struct {
 	// has returned (or after a long timeout); the context is cancelled once that body has started, before
 	// (PromptOrder = "cancel-first") or after Wait is called.  Wait must return while the body is still
 	// held: cancellation is prompt, it does not wait for running jobs (C09).
-	Hold        int     `json:"hold"`
-	PromptOrder string  `json:"promptorder"`
-	PerturbP    float64 `json:"perturbp"`
-	PerturbMax  int     `json:"perturbmax"`
+	Hold        int    `json:"hold"`
+	PromptOrder string `json:"promptorder"`
+	// Enqueuers > 1: that many goroutines call Enqueue concurrently (job j is enqueued by goroutine
+	// j mod Enqueuers and depends only on earlier jobs of the same goroutine); Wait is called when all are done.
+	Enqueuers  int     `json:"enqueuers"`
+	PerturbP   float64 `json:"perturbp"`
+	PerturbMax int     `json:"perturbmax"`
 	// Script, if non-empty, replaces the random pacing: the run is steered
 	// step by step (see replay.go).
 	Script []Step `json:"script,omitempty"`
@@ -312,6 +315,32 @@ func genWide(rng *rand.Rand, k int) RunSpec {
 		rs.Cls = append(rs.Cls, j)
 		rs.BodyUs = append(rs.BodyUs, b)
 		rs.EnqUs = append(rs.EnqUs, 0)
+	}
+	return rs
+}
+
+// genConcEnq: concurrent use of Enqueue (C12: it is safe; C01 etc. must hold all the same).
+func genConcEnq(rng *rand.Rand, k int) RunSpec {
+	K := 2 + rng.Intn(4)
+	J := K * (1 + rng.Intn(6))
+	rs := RunSpec{Run: k, Seed: rng.Int63(), J: J, N: 1 + rng.Intn(4), Coe: rng.Intn(2) == 0, CancelMode: "none", Cancel2Mode: "none", Enqueuers: K}
+	pfail := []float64{0, 0.1, 0.3}[rng.Intn(3)]
+	for j := 1; j <= J; j++ {
+		deps := []int{}
+		for d := j - K; d >= 1; d -= K {
+			if rng.Intn(3) == 0 {
+				deps = append(deps, d)
+			}
+		}
+		rs.Deps = append(rs.Deps, deps)
+		o := "ok"
+		if rng.Float64() < pfail {
+			o = "err"
+		}
+		rs.Out = append(rs.Out, o)
+		rs.Cls = append(rs.Cls, j)
+		rs.BodyUs = append(rs.BodyUs, rng.Intn(60))
+		rs.EnqUs = append(rs.EnqUs, rng.Intn(30))
 	}
 	return rs
 }
@@ -689,7 +718,31 @@ func execRun(rs RunSpec, log *vt.APILog, col *vt.Collector, nostamp bool, deadli
 			go func() { time.Sleep(d); x.doCancel() }()
 		}
 		handles := make([]*scheduler.ScheduledJob, rs.J+1)
-		for j := 1; j <= rs.J; j++ {
+		if rs.Enqueuers > 1 {
+			var wg sync.WaitGroup
+			for g := 0; g < rs.Enqueuers; g++ {
+				wg.Add(1)
+				go func(g int) {
+					defer wg.Done()
+					for j := 1; j <= rs.J; j++ {
+						if j%rs.Enqueuers != g {
+							continue
+						}
+						sleepUs(rs.EnqUs[j-1])
+						var deps []*scheduler.ScheduledJob
+						for _, d := range rs.Deps[j-1] {
+							deps = append(deps, handles[d]) // written by this goroutine earlier
+						}
+						if !nostamp {
+							log.Add(vt.APIEvent{Ev: "submit", Run: rs.Run, Job: j})
+						}
+						handles[j] = s.Enqueue(ctx, scheduler.Job{Run: x.body(j), Dependencies: deps})
+					}
+				}(g)
+			}
+			wg.Wait()
+		}
+		for j := 1; j <= rs.J && rs.Enqueuers <= 1; j++ {
 			sleepUs(rs.EnqUs[j-1])
 			if rs.Barrier > 0 && j == rs.J-rs.Barrier+1 {
 				// the capacity probe starts once everything before it has finished and the
@@ -874,6 +927,11 @@ func main() {
 		rng := rand.New(rand.NewSource(*seed))
 		for k := 1; k <= *runs; k++ {
 			specs = append(specs, genWide(rng, k))
+		}
+	case "concenq":
+		rng := rand.New(rand.NewSource(*seed))
+		for k := 1; k <= *runs; k++ {
+			specs = append(specs, genConcEnq(rng, k))
 		}
 	case "pileup":
 		rng := rand.New(rand.NewSource(*seed))
